@@ -27,7 +27,7 @@ def strategy(draw):
     for f in list(p.get("funcs", [])) + [m for c in p.get("classes", []) for m in c.get("members", [])]:
         if f.get("async"):
             for d in f.get("decos", []):
-                if d["t"] == "require" and draw(st.integers(0, 2)) == 0:
+                if d["t"] == "require" and not d.get("made") and draw(st.integers(0, 2)) == 0:
                     d["flavor"] = draw(st.sampled_from(["corofunc", "ret_coro", "awaitable", "future"]))
                     d["lam"] = False
     return case
